@@ -410,3 +410,21 @@ C12_UNMASK = dict(
 )
 
 ALL += [C12_REVEAL, C12_MASK, C12_UNMASK]
+
+# Screen.set_observed: `self` is the pair of the two arrays the method writes (no other attribute is assigned)
+C12_SET_OBSERVED = dict(
+    file="src/batchie/data.py", cls="Screen", func="set_observed", out="SrcReveal.v",
+    imports="Model.Encode Model.Screen Model.Reveal", name="src_set_observed",
+    pyparams=["self", "selection_mask", "observations"],
+    attr_vars={"self._observations": "self_observations", "self._observation_mask": "self_observation_mask"},
+    params=[("self_observations", "list Z"), ("self_observation_mask", "list bool"),
+            ("selection_mask", "list bool"), ("observations", "list Z")],
+    returns="(list Z * list bool)", vars={},
+    # the dtype guards: a `list bool` IS a bool array, a list of float64 bit patterns IS a float array
+    prims=[("np.issubdtype(selection_mask.dtype, bool)", "true", "bool"),
+           ("np.issubdtype(observations.dtype, FloatingPointType)", "true", "bool")],
+    raises=[("selection_mask must be bool", 12), ("observations must be float", 13)],
+    mask_store={"array": "np_mask_assign {a} {m} {v}", "scalar": "np_mask_fill {a} {m} {v}"},
+    implicit_return="({self_observations}, {self_observation_mask})",     # the two arrays when the method ends
+)
+ALL += [C12_SET_OBSERVED]
